@@ -10,7 +10,8 @@
    [range_ok line (a, b)]: a <= b <= |line|, both on character boundaries. *)
 From Coq Require Import List NArith ZArith Bool.
 From Abasic Require Import Model.Bytes Model.Num Model.Token Model.Data Model.Lexer Gen.Tables
-     Model.State Model.Eval Model.Interp Model.Analyzer Proofs.LexerRanges Proofs.AnalyzerProofs.
+     Model.State Model.Eval Model.Interp Model.Analyzer Proofs.LexerRanges Proofs.AnalyzerProofs
+     Proofs.AnalyzerSafety.
 Import ListNotations.
 Local Open Scope nat_scope.
 
@@ -62,13 +63,40 @@ Theorem C05_error_range_end : forall line skip ts e,
   snd (error_range e (length line)) <= length line.
 Proof. exact tokenize_err_end. Qed.
 
-(* Totality — [an_result] is never Panic (the two unwrap / panic! sites of the
-   mapping, the successor of line 2^64-1) nor OutOfFuel — and the fact that
-   every walk-phase message maps to Some position are NOT proved: they need the
-   analyzer fork's own safety invariant (cursor within the line).  They are
-   checked on every run by the correspondence (the model's an_result and every
-   mapped range must equal the implementation's, which runs under catch_unwind)
-   and by the oracle. *)
+(* The analysis never panics — for EVERY text (no validity hypothesis): the
+   result is never Panic, where the model keeps all four panic sites of the
+   Rust (tokens_for_line(..).unwrap() under every cursor operation,
+   err.location.unwrap(), the explicit panic! when a diagnostic's location
+   does not map to the source, the unwrap() on the symbol warnings' locations).
+   Invariant (Proofs/AnalyzerSafety.v): the cursor is on a stored line at most
+   one past its last token; every located error and every logged symbol access
+   is at such a location; an unlocated error is never DATA TYPE MISMATCH; pass 1
+   maps every such location to a range. *)
+Theorem C05_never_panics : forall fuel text p, an_result (analyze fuel text) <> Panic p.
+Proof. exact analysis_never_panics. Qed.
+
+(* EVERY diagnostic the analysis reports — pass-1 warnings and tokenizer errors,
+   the errors of the walk, the symbol warnings — maps to a source position, and
+   that position is on an existing file line, inside it, on character
+   boundaries: the full second sentence of the property, for every text whose
+   lines are valid UTF-8 (pieces of a Rust &str). *)
+Theorem C05_every_diagnostic_maps : forall fuel text,
+  Forall (fun msg => map_to_source (an_map (analyze fuel text)) msg <> None) (an_messages (analyze fuel text)).
+Proof. exact analysis_messages_map. Qed.
+
+Theorem C05_diagnostics_well_formed : forall fuel text,
+  Forall (fun l => valid_utf8 l = true) (split_lines text) ->
+  Forall (fun msg => exists fl r line,
+            map_to_source (an_map (analyze fuel text)) msg = Some (fl, r)
+            /\ nth_error (split_lines text) fl = Some line /\ range_ok line r)
+         (an_messages (analyze fuel text)).
+Proof. exact diagnostics_well_formed. Qed.
+
+(* NOT proved: that the model's fuel suffices (an_result <> OutOfFuel for the
+   fuel the check uses) — termination of the Rust loops is what the model's
+   fuel stands for; it is checked on every run by the correspondence (the
+   model's an_result and every mapped range must equal the implementation's,
+   which runs under catch_unwind) and by the oracle. *)
 
 (* non-vacuity: a file with a duplicate number, a blank line, an unnumbered
    line, an untokenizable line with a multi-byte illegal character *)
@@ -88,3 +116,6 @@ Print Assumptions C05_bindings.
 Print Assumptions C05_diag.
 Print Assumptions C05_pass1_messages.
 Print Assumptions C05_error_range_end.
+Print Assumptions C05_never_panics.
+Print Assumptions C05_every_diagnostic_maps.
+Print Assumptions C05_diagnostics_well_formed.
